@@ -697,6 +697,16 @@ class BuiltinMixin:
     def m_seq_copy(self, obj, args, kwargs, line):
         return obj.clone()
 
+    def m_seq_insert(self, obj, args, kwargs, line):
+        """list.insert(pos, x) with 0 <= pos <= len (Python clamps other positions: not modelled)"""
+        pos = as_int_term(args[0])
+        if self.ctx.feasible(z3.Not(z3.And(pos >= 0, pos <= obj.n))):
+            raise Unsupported("insert position not provably inside the sequence")
+        old, term = obj.clone(), self.pack(args[1], obj.et)
+        obj.fn = lambda j, old=old, pos=pos, term=term: z3.If(j < pos, old.sel(j), z3.If(j == pos, term, old.sel(z3.simplify(j - 1))))
+        obj.arr, obj.off, obj.n = None, 0, z3.simplify(obj.n + 1)
+        return NONE
+
     def m_seq_pop(self, obj, args, kwargs, line):
         if args:
             raise Unsupported("pop(i) on symbolic sequence")
